@@ -115,3 +115,105 @@ def _(self: ElemK, survey: SurveyS) -> List[XNode]:
         # ... and, keyed by attribute name, every entry is the prescribed value of that row's own cell
         invariant(forall_str(lambda a: implies(a in bind_dict, a in B and not (a == "calculate" and skip_calc)
                                                and bind_dict[a] == BindAttr(survey, self, a, B[a]))))
+
+
+# ---------------------------------------------------------------- dynamic defaults (C10)
+
+@spec
+def IsDynamic(default: str, qtype: str) -> bool:
+    """default_is_dynamic: the default is an expression (bounded contract in contracts/utils_bounded.py)."""
+    uninterpreted()
+
+
+@contract("default_is_dynamic", module="pyxform.utils")
+def _(element_default: str, element_type: str) -> bool:
+    trusted("token-level classification of the default text: bounded native contract (contracts/utils_bounded.py)")
+    ensures(result == IsDynamic(element_default, element_type))
+
+
+@contract("SurveyElement.get_setvalue_node_for_dynamic_default")
+def _(self: ElemK, survey: SurveyS, in_repeat: bool = False) -> Opt[XNode]:
+    properties("C10", "C02")
+    no_native("needs survey-element objects: exercised through the e2e oracles")
+    may_raise(PyXFormError, when=True)
+    dyn = bool(self.default) and IsDynamic(some(self.default), self.type)
+    # C10: a dynamic default produces exactly this setvalue; a static or absent default produces none
+    ensures((result is None) == (not dyn))
+    ensures(implies(dyn, some(result).tagName == "setvalue" and len(some(result).kids) == 0
+                    and len(keys(some(result).attrs)) == 3
+                    and keys(some(result).attrs)[0] == "ref" and some(result).attrs["ref"] == XPathOf(self)
+                    and keys(some(result).attrs)[1] == "value" and some(result).attrs["value"] == Subst(survey, some(self.default), self)
+                    and keys(some(result).attrs)[2] == "event"))
+    # fired on first load; inside a repeat also for every new repeat instance
+    ensures(implies(dyn and not in_repeat, some(result).attrs["event"] == "odk-instance-first-load"))
+    ensures(implies(dyn and in_repeat, some(result).attrs["event"] == "odk-instance-first-load odk-new-repeat"))
+
+
+# ---------------------------------------------------------------- labels and hints (C06 flag discipline, C07 references)
+
+@spec
+def IovText(survey: SurveyS, text: LabelVal, ctx: ElemK) -> str:
+    """First component of Survey.insert_output_values (C06 kernel in contracts/survey.py)."""
+    uninterpreted()
+
+
+@spec
+def IovFlag(survey: SurveyS, text: LabelVal, ctx: ElemK) -> bool:
+    """Second component: True iff references were replaced by <output/> elements (then the text is escaped markup)."""
+    uninterpreted()
+
+
+@contract("Survey.insert_output_values", module="pyxform.survey")
+def _(self: SurveyS, text: LabelVal, context: ElemK) -> Tuple[str, bool]:
+    trusted("reference -> <output/> substitution with escaping before substitution: C06 kernel / bounded e2e")
+    ensures(result[0] == IovText(self, text, context) and result[1] == IovFlag(self, text, context))
+    may_raise(PyXFormError, when=True)
+
+
+@spec
+def NeedsItext(e: ElemK) -> bool:
+    """A translated label, or any media, is shown through an itext reference (C07)."""
+    return isinstance(e.label, dict) or (e.media is not None and len(some(e.media)) > 0)
+
+
+@contract("SurveyElement.needs_itext_ref")
+def _(self: ElemK) -> Union[bool, Dict[str, LabelVal]]:
+    properties("C07", "C08")
+    no_native("needs survey-element objects")
+    ensures(bool(result) == NeedsItext(self))
+
+
+@contract("SurveyElement.xml_label")
+def _(self: ElemK, survey: SurveyS) -> XNode:
+    properties("C06", "C07")
+    no_native("needs survey-element objects: exercised through the e2e oracles")
+    may_raise(PyXFormError, when=True)
+    L = some(self.label)
+    ensures(result.tagName == "label" and result.nodeType == 1)
+    # C07: a translated label (or media) is referenced by the id under which its itext entry is filed
+    ensures(implies(NeedsItext(self), len(result.kids) == 0 and len(keys(result.attrs)) == 1
+                    and result.attrs["ref"] == "jr:itext('" + XPathOf(self) + ":label')"))
+    # C06: plain label text is a text node holding exactly the author's text; it is re-parsed as markup only when
+    # insert_output_values says it replaced references (and then it is the escaped text it returned)
+    ensures(implies(not NeedsItext(self) and bool(self.label), len(keys(result.attrs)) == 0
+                    and implies(IovFlag(survey, L, self), result.kids == ParsedKids("label", IovText(survey, L, self)))
+                    and implies(not IovFlag(survey, L, self), len(result.kids) == 1 and result.kids[0].nodeType == 3
+                                and result.kids[0].data == IovText(survey, L, self))))
+    ensures(implies(not NeedsItext(self) and not bool(self.label), len(result.kids) == 0 and len(keys(result.attrs)) == 0))
+
+
+@contract("SurveyElement.xml_hint")
+def _(self: ElemK, survey: SurveyS) -> XNode:
+    properties("C06", "C07")
+    no_native("needs survey-element objects: exercised through the e2e oracles")
+    may_raise(PyXFormError, when=True)
+    H = some(self.hint)
+    via_itext = isinstance(self.hint, dict) or bool(self.guidance_hint)
+    ensures(result.tagName == "hint" and result.nodeType == 1)
+    ensures(implies(via_itext, len(result.kids) == 0 and len(keys(result.attrs)) == 1
+                    and result.attrs["ref"] == "jr:itext('" + XPathOf(self) + ":hint')"))
+    ensures(implies(not via_itext and bool(self.hint), len(keys(result.attrs)) == 0
+                    and implies(IovFlag(survey, H, self), result.kids == ParsedKids("hint", IovText(survey, H, self)))
+                    and implies(not IovFlag(survey, H, self), len(result.kids) == 1 and result.kids[0].nodeType == 3
+                                and result.kids[0].data == IovText(survey, H, self))))
+    ensures(implies(not via_itext and not bool(self.hint), len(result.kids) == 0 and len(keys(result.attrs)) == 0))
